@@ -18,6 +18,18 @@ fn squares(r: i64) -> Option<Vec<i64>> {
     if r < 0 {
         return None;
     }
+    // the same few remainders recur for every position / message / salt: memoise
+    static CACHE: std::sync::OnceLock<std::sync::Mutex<std::collections::HashMap<i64, Option<Vec<i64>>>>> = std::sync::OnceLock::new();
+    let cache = CACHE.get_or_init(|| std::sync::Mutex::new(std::collections::HashMap::new()));
+    if let Some(v) = cache.lock().unwrap().get(&r) {
+        return v.clone();
+    }
+    let v = squares_uncached(r);
+    cache.lock().unwrap().insert(r, v.clone());
+    v
+}
+
+fn squares_uncached(r: i64) -> Option<Vec<i64>> {
     // some r (e.g. 4^k * m) have no representation by four squares below the cap; retry with a few
     // small entries split off first
     for pre in [&[][..], &[1][..], &[2][..], &[3][..], &[1, 2][..], &[5][..], &[7, 1][..]] {
